@@ -24,8 +24,7 @@ CONSTANTS
     PrivateBuiltins,\* {"K"}
     UserClasses,    \* {"U1", "U2", "U3"}
     Inconsistent,   \* {"U3"}
-    CandSymbols,    \* symbols offered to Register, e.g. {"X", "Xa", "L", "x"}
-    ValidSymbols,   \* those of CandSymbols that pass the symbol syntax check
+    CandSymbols,    \* symbols offered to Register, a subset of the universe tabulated in Shape below
     ResetClearsPrivate, \* TRUE = the repaired reset(); FALSE reproduces the pinned tree (private flags survive reset)
     MaxHist, Record, Enabled
 
@@ -37,6 +36,23 @@ VARIABLES
     hist, steps
 
 vars == <<elements, private, classSym, dflt, hist, steps>>
+
+\* ---------------------------------------------------------------------------
+\* Symbol syntax (_validate_element_symbol, registry.py l.443): the first character is an upper-case
+\* ASCII letter - the delimiter the tokenizer relies on - and every further character is a lower-case
+\* ASCII letter, a digit or an underscore.  Shape tabulates the character classes of the symbol
+\* universe the configurations draw from: U upper, l lower, d digit, u underscore, o anything else.
+\* ---------------------------------------------------------------------------
+Shape(s) ==
+    CASE s = "X" -> <<"U">>            [] s = "L" -> <<"U">>
+      [] s = "Xa" -> <<"U", "l">>      [] s = "x" -> <<"l">>
+      [] s = "XA" -> <<"U", "U">>      [] s = "XaB" -> <<"U", "l", "U">>
+      [] s = "X1" -> <<"U", "d">>      [] s = "X_a" -> <<"U", "u", "l">>
+      [] s = "1X" -> <<"d", "U">>      [] s = "_X" -> <<"u", "U">>
+      [] s = "X-a" -> <<"U", "o", "l">> [] s = "X a" -> <<"U", "o", "l">>
+      [] OTHER -> <<"o">>
+SyntaxOK(sh) == Len(sh) > 0 /\ sh[1] = "U" /\ \A k \in 2..Len(sh) : sh[k] \in {"l", "d", "u"}
+ValidSymbols == {s \in CandSymbols : SyntaxOK(Shape(s))}
 
 BuiltinSeq == CHOOSE s \in [1..Cardinality(Builtins) -> Builtins] :
                 /\ \A i, j \in 1..Cardinality(Builtins) : i # j => s[i] # s[j]
